@@ -4,7 +4,7 @@ UNITS = {
     "C01": [
         dict(test="TestC01_Tree", quick=dict(checks=1500, shards=4), thorough=dict(checks=40000, shards=16)),
         dict(test="TestC01_Distractors", quick=dict(), thorough=dict()),
-        dict(test="TestC01_Wide", quick=dict(checks=150, shards=2, shrinktime="10s"), thorough=dict(checks=4000, shards=8)),
+        dict(test="TestC01_Wide", quick=dict(checks=150, shards=2, shrinktime="10s"), thorough=dict(checks=1500, shards=8)),
     ],
 }
 
@@ -66,7 +66,7 @@ UNITS["C09"] = [
 
 UNITS["C10"] = [
     dict(test="TestC10_Rewrites", quick=dict(checks=1000, shards=5), thorough=dict(checks=30000, shards=16)),
-    dict(test="TestC10_Wide", quick=dict(checks=150, shards=2, shrinktime="10s"), thorough=dict(checks=4000, shards=8)),
+    dict(test="TestC10_Wide", quick=dict(checks=150, shards=2, shrinktime="10s"), thorough=dict(checks=1000, shards=8)),
     dict(test="TestC10_Compose", quick=dict(checks=800, shards=3), thorough=dict(checks=20000, shards=16)),
 ]
 
